@@ -618,13 +618,18 @@ func checkInitFailureCarriesError(c *report.Ctx) {
 	})
 	n, ok := 0, true
 	pos := fpos(f)
-	for _, e := range an.Exits(f) {
+	for _, e := range an.ExitTuples(f) {
 		if len(e.Vals) < 2 || an.IsNil(e.Vals[len(e.Vals)-1]) {
 			continue
 		}
 		n++
 		if must, _ := ord.Before(e.Ret); must&3 == 3 {
 			continue
+		}
+		if e.From != nil {
+			if must, _ := ord.Before(e.From.Instrs[len(e.From.Instrs)-1]); must&3 == 3 {
+				continue
+			}
 		}
 		// or the two travel as results of their own, straight from the failure that was received
 		gotMsg, gotTyp := false, false
@@ -788,11 +793,30 @@ func checkExecEnvComplete(c *report.Ctx) {
 		before[factsString([]an.Fact{ft})] = true
 	}
 	an.AllInstrs(f, func(in ssa.Instruction) {
-		call, ok := in.(*ssa.Call)
-		if !ok || !an.InLoop(in) {
+		if !an.InLoop(in) {
 			return
 		}
-		if b, isB := call.Call.Value.(*ssa.Builtin); !isB || b.Name() != "append" {
+		// an entry is added by append, or stored into the next slot of a slice sized for the map
+		switch x := in.(type) {
+		case *ssa.Call:
+			if b, isB := x.Call.Value.(*ssa.Builtin); !isB || b.Name() != "append" {
+				return
+			}
+		case *ssa.Store:
+			ia, isIA := x.Addr.(*ssa.IndexAddr)
+			if !isIA {
+				return
+			}
+			if bo, isCat := x.Val.(*ssa.BinOp); !isCat || bo.Op != token.ADD {
+				return // (the entry is the concatenation key + "=" + value)
+			}
+			if bt, isStr := x.Val.Type().Underlying().(*types.Basic); !isStr || bt.Info()&types.IsString == 0 {
+				return
+			}
+			if a, isA := ia.X.(*ssa.Alloc); isA && a.Comment == "varargs" {
+				return // the argument list of the append itself
+			}
+		default:
 			return
 		}
 		n++
